@@ -13,6 +13,7 @@ mod sdm;
 mod serde_ev;
 mod visit_ev;
 mod build_ev;
+mod edit_ev;
 
 use std::collections::HashMap;
 
@@ -75,6 +76,7 @@ fn real_main() {
         "serde-events" => serde_ev::serde_events(&args),
         "visit-events" => visit_ev::visit_events(&args),
         "build-events" => build_ev::build_events(&args),
+        "edit-events" => edit_ev::edit_events(&args),
         _ => {
             eprintln!("unknown command {cmd:?}");
             std::process::exit(2);
